@@ -1,0 +1,5 @@
+//go:build !verif
+
+package tree
+
+func verifDraw(site string, n int, v int) {}
